@@ -547,6 +547,29 @@ func setMembershipAlts(key ssa.Value, e env, keys []string, holds bool) [][]fact
 }
 
 // alwaysFails: every return of h yields a freshly built (non-nil) error.
+// typedErrorValue: an error interface built from a value that cannot be nil: the address of a literal (&usageError{...})
+// or a struct value (validationError{...}).
+func typedErrorValue(v ssa.Value) bool {
+	mi, ok := v.(*ssa.MakeInterface)
+	if !ok {
+		return false
+	}
+	switch x := mi.X.(type) {
+	case *ssa.Alloc:
+		return true
+	case *ssa.UnOp:
+		// a struct value loaded from a literal
+		if _, isStruct := x.Type().Underlying().(*types.Struct); isStruct {
+			return true
+		}
+	default:
+		if _, isStruct := mi.X.Type().Underlying().(*types.Struct); isStruct {
+			return true
+		}
+	}
+	return false
+}
+
 func alwaysFails(h *ssa.Function, d int) bool {
 	if h.Blocks == nil || d > 2 {
 		return false
@@ -561,6 +584,10 @@ func alwaysFails(h *ssa.Function, d int) bool {
 			return false
 		}
 		v := returnedValue(r, len(r.Results)-1)
+		if typedErrorValue(v) {
+			n++
+			continue
+		}
 		cl, _ := callOf(v)
 		if cl == nil {
 			return false
